@@ -76,6 +76,7 @@ type c17Scenario struct {
 	CrashAt int         `json:"crash_at"`                   // the target dies after this many requests of the operation; -1 = never
 	Fault   string      `json:"fault,omitempty"`            // what happens at crash_at: "" the target dies and the tool with it | "error-reply": request crash_at+1 is answered with an error, target and tool live on | "crash-revive": the target dies, comes back 2 s later, the tool lives on (its own retries run)
 	Order   string      `json:"order,omitempty"`            // database visiting order of the operation (observed; required on replay)
+	Src     *c17SrcPlan `json:"source_plan,omitempty"`      // gc-cron: source topology and what every consultation of the pass meets (c17_gcsrc_test.go); IDs / Other are the ids the first / second shard's nodes hold
 	ROrder  string      `json:"recovery_order,omitempty"`
 }
 
@@ -87,6 +88,9 @@ func (s c17Scenario) kind() string {
 		return "rekey"
 	}
 	if strings.HasPrefix(s.Op, "gc") {
+		if s.Src != nil {
+			return "gc-source-answers"
+		}
 		return "gc"
 	}
 	return s.Op
@@ -123,6 +127,9 @@ type c17Obs struct {
 	after2     c17Pos // position found by a second start, after the first one went on under the current id (SetRunId)
 	rec2Log    []string
 	gcLost     []string // newest entries of reported ids that the operation removed
+	gcNotAsked bool     // ... among them one whose id no consultation of the pass learned (every node holding it met a fault)
+	srcFaults  int      // consultations of source nodes that met a fault
+	srcLog     []string // what every consultation of a source node met
 	nDB        int
 	beforeDBs  []int // databases that tie exactly (same offset, same mtime) for the position held before
 }
@@ -211,10 +218,15 @@ func c17Exec(t *testing.T, scn c17Scenario) (o c17Obs) {
 	msg := bubble(t, func() {
 		vnet.Reset()
 		tgt := redisd.New(c17Target)
-		src := redisd.New(c17Source)
-		src.ReplID, src.ReplID2 = scn.IDs[0], scn.IDs[1]
 		srcAddrs := []string{c17Source}
-		if len(scn.Other) == 2 {
+		var srcRun *c17SrcRun
+		if scn.Src != nil {
+			srcRun = c17SrcSetup(scn.Src)
+		} else {
+			src := redisd.New(c17Source)
+			src.ReplID, src.ReplID2 = scn.IDs[0], scn.IDs[1]
+		}
+		if scn.Src == nil && len(scn.Other) == 2 {
 			src2 := redisd.New(c17Source2)
 			src2.ReplID, src2.ReplID2 = scn.Other[0], scn.Other[1]
 			srcAddrs = append(srcAddrs, c17Source2)
@@ -261,6 +273,9 @@ func c17Exec(t *testing.T, scn c17Scenario) (o c17Obs) {
 		// ---- global configuration (read by gcStaleCheckpoint)
 		sc := config.GetSyncerConfig()
 		inCfg, outCfg := c17RedisCfg(srcAddrs...), c17RedisCfg(c17Target)
+		if scn.Src != nil {
+			inCfg = scn.Src.redisConfig()
+		}
 		tr := true
 		sc.Input = &config.InputConfig{Redis: &inCfg}
 		sc.Output = &config.OutputConfig{Redis: &outCfg, Replay: config.ReplayConfig{ResumeFromBreakPoint: &tr}}
@@ -386,6 +401,13 @@ func c17Exec(t *testing.T, scn c17Scenario) (o c17Obs) {
 		if opErr != nil {
 			o.opErr = opErr.Error()
 		}
+		if srcRun != nil {
+			o.srcFaults, o.srcLog = srcRun.faults, srcRun.log
+			if srcRun.machinery != "" {
+				o.machinery = srcRun.machinery
+				return
+			}
+		}
 		log := tgt.Log()
 		opReqs := log[seq0:]
 		o.R = len(opReqs)
@@ -423,7 +445,7 @@ func c17Exec(t *testing.T, scn c17Scenario) (o c17Obs) {
 		tgt.Revive()
 
 		// ---- GC clause: the newest entry of every id the source reports is still there
-		if scn.kind() == "gc" {
+		if strings.HasPrefix(scn.kind(), "gc") {
 			for _, id := range append(append([]string(nil), scn.IDs...), scn.Other...) {
 				name := scn.hashName(id)
 				if id == "" || name == "" {
@@ -454,11 +476,17 @@ func c17Exec(t *testing.T, scn c17Scenario) (o c17Obs) {
 						kept = true
 					}
 				}
+				note := ""
+				if srcRun != nil && !srcRun.asked[id] {
+					note = " - no node holding this id could be asked during the pass"
+				}
 				if !kept {
-					o.gcLost = append(o.gcLost, fmt.Sprintf("id %s..: newest entry db%d offset %d (mtime age %s)", id[:4], best.DB, best.Offset, time.Duration(best.AgeNs)))
+					o.gcLost = append(o.gcLost, fmt.Sprintf("id %s..: newest entry db%d offset %d (mtime age %s)%s", id[:4], best.DB, best.Offset, time.Duration(best.AgeNs), note))
+					o.gcNotAsked = o.gcNotAsked || note != ""
 				}
 				if hv := tgt.Get(0, config.CheckpointKeyHashKey); hv == nil || string(hv.Hash[id]) != name {
-					o.gcLost = append(o.gcLost, fmt.Sprintf("id %s..: its entry in the checkpoint index (-> %s) is gone", id[:4], name))
+					o.gcLost = append(o.gcLost, fmt.Sprintf("id %s..: its entry in the checkpoint index (-> %s) is gone%s", id[:4], name, note))
+					o.gcNotAsked = o.gcNotAsked || note != ""
 				}
 			}
 		}
@@ -544,7 +572,7 @@ func c17MaskMtime(d string) string {
 func c17Judge(scn c17Scenario, o c17Obs) mc.Result {
 	detail := func() map[string]interface{} {
 		return map[string]interface{}{"position_before": o.before, "position_after_restart": o.after, "operation_requests": o.opLog, "operation_error": o.opErr,
-			"exact_tie_databases_before": o.beforeDBs, "crashed": o.crashed, "requests_processed": o.R, "next_start_requests": o.recLog, "visiting_order": o.order, "target_after": strings.Split(c17MaskMtime(o.dump), "\n")}
+			"source_consultations": o.srcLog, "exact_tie_databases_before": o.beforeDBs, "crashed": o.crashed, "requests_processed": o.R, "next_start_requests": o.recLog, "visiting_order": o.order, "target_after": strings.Split(c17MaskMtime(o.dump), "\n")}
 	}
 	if o.machinery != "" {
 		return mc.Result{Verdict: "machinery", Clause: o.machinery, Detail: detail()}
@@ -553,6 +581,9 @@ func c17Judge(scn c17Scenario, o c17Obs) mc.Result {
 	if len(o.gcLost) > 0 {
 		d := detail()
 		d["removed"] = o.gcLost
+		if o.gcNotAsked {
+			return mc.Violation("garbage collection removed the newest checkpoint of a replication id whose source could not be asked during the pass (connection refused / error reply / reply cut off): the source still holds that id, the position stored under it is live", "C17:gc-removed-newest:source-not-asked", d)
+		}
 		return mc.Violation("garbage collection removed the newest checkpoint of a replication id the source still reports", "C17:gc-removed-newest", d)
 	}
 	if !o.before.None {
@@ -605,8 +636,9 @@ func c17Judge(scn c17Scenario, o c17Obs) mc.Result {
 		}
 	}
 	obs := mc.Hash(scn.Label, scn.Op, scn.Fault, strconv.Itoa(scn.CrashAt), c17MaskMtime(o.dump), fmt.Sprintf("%v/%d/%d", o.after.None, o.after.Offset, o.after.DB))
-	// non-trivial: a position existed before and the operation changed the target
-	return mc.OK(obs, !o.before.None && o.writes > 0, o.R+len(o.recLog))
+	// non-trivial: a position existed before and the operation changed the target - or had to decide with a
+	// source node that could not be asked
+	return mc.OK(obs, !o.before.None && (o.writes > 0 || o.srcFaults > 0), o.R+len(o.recLog))
 }
 
 func c17In(l []int, x int) bool {
@@ -929,7 +961,7 @@ func runC17(t *testing.T, rep *mc.Reporter) {
 		// repeat until the recorded visiting orders come up again
 		for try := 0; try < 20000; try++ {
 			o := c17Exec(t, scn)
-			if o.machinery != "" || (o.order == scn.Order && (scn.ROrder == "" || o.rorder == scn.ROrder)) {
+			if o.machinery != "" || (o.order == scn.Order && (scn.ROrder == "" || o.rorder == scn.ROrder)) || (scn.Src != nil && o.R == 0) { // the last: the pass gave up before its first target request, no visiting order exists
 				rep.Exec(scn, nil, c17Judge(scn, o))
 				return
 			}
@@ -989,13 +1021,24 @@ func runC17(t *testing.T, rep *mc.Reporter) {
 	if os.Getenv("VERIF_ALLVIOL") != "" { // debugging aid: keep every violation record
 		rep.MaxPerSig = 1 << 30
 	}
+	if os.Getenv("VERIF_ONLY") == "count" { // debugging aid: sizes of the scenario lists
+		src, states, allOK := c17SrcScenarios(tier), map[string]bool{}, 0
+		for _, s := range src {
+			states[s.Label[:strings.Index(s.Label, "/source:")]] = true
+			if !strings.Contains(strings.Join(s.Src.Answers, ","), "-") && !strings.Contains(strings.Join(s.Src.Answers, ","), "refused") {
+				allOK++
+			}
+		}
+		fmt.Fprintf(os.Stderr, "C17 %s: %d scenarios + %d of the family gc-source-answers (%d states of the first shard, %d passes in which every node answers)\n", tier, len(c17Scenarios(tier)), len(src), len(states), allOK)
+		return
+	}
 	runC17Bisync(t, rep, budget, &idx)
 	if os.Getenv("VERIF_ONLY") == "mode-switch" { // debugging aid
 		return
 	}
-	for _, base := range c17Scenarios(tier) {
+	for _, base := range append(c17Scenarios(tier), c17SrcScenarios(tier)...) {
 		idx++
-		if idx%nshards != shard {
+		if idx%nshards != shard || (os.Getenv("VERIF_ONLY") == "gc-source-answers" && base.Src == nil) { // the latter: debugging aid
 			continue
 		}
 		if budget.Expired() {
@@ -1020,6 +1063,15 @@ func runC17(t *testing.T, rep *mc.Reporter) {
 			if len(perms) >= c17Fact(nDB) {
 				break
 			}
+			if o.R == 0 && base.Src != nil {
+				// the pass gave up before its first target request (the consultations are made in slice order, no
+				// iteration order is involved): there is no visiting order to enumerate and no prefix to stop at
+				nDB = 1
+				break
+			}
+		}
+		if base.Src != nil {
+			rep.Count("execs_gc_source_answers", 1)
 		}
 		rep.Count("order_slots", int64(c17Fact(nDB)))
 		rep.Count("orders_seen", int64(len(perms)))
